@@ -82,7 +82,7 @@ CHECKS = {
     category="proof",
     text="Proved in Coq for all models: sorted duplicate-free variable list equal to the domain key set, one coefficient per variable in every row and the objective, "
          "every used declared variable present, auxiliary names disjoint from declared names. Checked as invariants on every implementation output each run "
-         "(not yet proved): finite coefficients/rhs/offset, unique non-empty row names, well-formed published ranges, missing-bounds error. " + CORE_TIE,
+         "(not yet proved): finite coefficients/rhs/offset, well-formed published ranges, missing-bounds error. Proved for every model: row names pairwise distinct, unnamed rows aside (C08_row_names_unique: the de-duplication loop always finds a free name within its step bound). " + CORE_TIE,
     design_ref="DESIGN.md section 4 / C08",
     technique="Coq proof of structural invariants of the compile model (frame lemmas over the linearizer monad) + per-run correspondence + output predicates on the implementation",
     note=TB),
